@@ -123,4 +123,5 @@ func VerifC17SioRestart() {
 	cancel2()
 	time.Sleep(10 * time.Millisecond)
 	verif.Assert("no-goroutine-left-after-cancel", verif.Quiesce() == 0)
+	c17Races()
 }
